@@ -115,7 +115,26 @@ def materialise(src, faults, rng, out_base, nested=False):
                 for n, d in members:
                     if n.endswith(".iwa"):
                         zi.writestr(n, d)
-            zf.writestr("Index.zip", inner.getvalue())
+            ib = inner.getvalue()
+            if "nested-index-damaged" in kinds:
+                # the inner zip itself is damaged: empty, a few bytes, cut somewhere, garbage, or its directory flipped
+                v = rng.randrange(6)
+                if v == 0:
+                    ib = b""
+                elif v == 1:
+                    ib = ib[: rng.randint(1, 3)]
+                elif v == 2:
+                    ib = ib[: rng.randint(4, max(5, len(ib) - 1))]
+                elif v == 3:
+                    ib = bytes(rng.getrandbits(8) for _ in range(200))
+                elif v == 4:
+                    ib = ib[:-22] + bytes(22)
+                else:
+                    bb = bytearray(ib)
+                    for _ in range(6):
+                        bb[-rng.randint(1, min(len(bb), 60))] ^= 1 << rng.randrange(8)
+                    ib = bytes(bb)
+            zf.writestr("Index.zip", ib)
             for n, d in members:
                 if not n.endswith(".iwa"):
                     zf.writestr(n, d)
